@@ -33,7 +33,37 @@ def _failing(pid, sources):
     return {o.key(): o for o in ctx.obs if not o.ok}, None
 
 
+class _Timeout(Exception):
+    pass
+
+
 def _one(args):
+    """one variant, under a watchdog: an analysis that does not finish is reported, never waited for"""
+    import signal
+
+    def _alarm(*_a):
+        raise _Timeout()
+
+    old = None
+    try:
+        old = signal.signal(signal.SIGALRM, _alarm)
+        signal.alarm(180)
+    except (ValueError, AttributeError):
+        old = None
+    try:
+        return _one_inner(args)
+    except _Timeout:
+        return (args[1], args[2]["id"], "analysis-error", "analysis of this variant did not finish within 180 s")
+    finally:
+        try:
+            signal.alarm(0)
+            if old is not None:
+                signal.signal(signal.SIGALRM, old)
+        except (ValueError, AttributeError):
+            pass
+
+
+def _one_inner(args):
     pid, kind, v, sources, base_keys = args
     if "patch" in v:
         from . import patches
